@@ -77,10 +77,26 @@ def extract_case(path, case_no, start="C"):
     return data.decode(errors="replace").splitlines()
 
 
+# Shrinking is a convenience, never a reason for a check to run out of time on a badly broken tree: once the whole run has
+# spent SHRINK_BUDGET seconds inside ddmin, further witnesses are reported unminimised.
+SHRINK_BUDGET = float(os.environ.get("VERIF_SHRINK_BUDGET", "150"))
+_shrink_spent = [0.0]
+
+
 def ddmin(header, ops, fails):
     """Delta debugging over the operation lines: smallest subsequence for which fails(header+ops)."""
+    t_in = time.time()
+    try:
+        return _ddmin(header, ops, fails, t_in)
+    finally:
+        _shrink_spent[0] += time.time() - t_in
+
+
+def _ddmin(header, ops, fails, t_in):
     n = 2
     while len(ops) >= 2:
+        if _shrink_spent[0] + (time.time() - t_in) > SHRINK_BUDGET:
+            break
         chunk = max(1, len(ops) // n)
         reduced = False
         for i in range(0, len(ops), chunk):
